@@ -202,21 +202,48 @@ def run(prog: Program, ctx: Ctx) -> None:  # noqa: PLR0912,PLR0915
 
     # ------------------------------------------------------------------ R5 attribute chains
     ctx.rule("R5", "names are built with their scope as parent, and each segment of a dotted chain has the previous segment as parent")
-    bn = prog.function("_griffe.expressions._build_name")
-    ok = any(isinstance(c, ast.Call) and dotted(c.func) == "ExprName" and len(c.args) == 2 and unparse(c.args[0]) == "node.id" and unparse(c.args[1]) == bn.params[1] for c in ast.walk(bn.node))
-    ctx.ob("R5", key(bn, "scope-parent"), ok, "a bare name is built as ExprName(node.id, <scope>)", where(bn))
-    ba = prog.function("_griffe.expressions._build_attribute")
-    s = ast.unparse(ba.node)
-    ctx.ob("R5", key(ba, "second-segment"), "ExprAttribute([left, ExprName(node.attr, left)])" in s, "`a.b`: b's parent is the name a", where(ba))
-    ctx.ob("R5", key(ba, "later-segments"), "left.append(ExprName(node.attr))" in s, "`a.b.c`: later segments are appended to the chain", where(ba))
-    ap = prog.function("_griffe.expressions.ExprAttribute.append")
-    s2 = ast.unparse(ap.node)
-    ctx.ob("R5", key(ap, "append-links"), "value.parent = self.last" in s2 and "self.values.append(value)" in s2, "an appended segment gets the previous last segment as parent", where(ap))
-    ea = prog.cls("_griffe.expressions.ExprAttribute")
-    for attr in ("path", "canonical_path"):
-        f = prog.lookup_method(ea, attr)[0]
-        ctx.ob("R5", key(f, "last-segment"), f"return self.last.{attr}" in ast.unparse(f.node), f"ExprAttribute.{attr} is its last segment's {attr} (resolved through the chain)", where(f))
+    from sa.absint import Native as _Native
 
+    build = prog.function("_griffe.expressions._build")
+    it5 = Interp(prog, max_depth=40)
+
+    def _resolve(name_: str) -> str:
+        table = {"a": "pkg.mod.a", "f": "pkg.f"}
+        if name_ not in table:
+            raise Raised("NameResolutionError")
+        return table[name_]
+
+    scope = Obj(prog.cls(f"{M}.Module"), {"name": "m", "path": "m", "members": {}, "resolve": _Native(_resolve)}, label="scope m")
+
+    def names_of(e: object, out: list) -> list:
+        if isinstance(e, Obj) and e.cls is not None:
+            if e.cls.name == "ExprName":
+                out.append(e)
+            else:
+                for k_, v_ in e.attrs.items():
+                    if k_ == "parent":
+                        continue
+                    for x in (v_ if isinstance(v_, (list, tuple)) else [v_]):
+                        names_of(x, out)
+        return out
+
+    for src, want_parents, want_canon in (
+        ("a", ["<scope>"], "pkg.mod.a"),
+        ("a.b", ["<scope>", "a"], "pkg.mod.a.b"),
+        ("a.b.c", ["<scope>", "a", "b"], "pkg.mod.a.b.c"),
+        ("a.b.c.d", ["<scope>", "a", "b", "c"], "pkg.mod.a.b.c.d"),
+        ("unknown.x", ["<scope>", "unknown"], "unknown.x"),
+    ):
+        node = ast.parse(src, mode="eval").body
+        try:
+            e = it5.call(build, node, scope, parse_strings=False)
+            ns = names_of(e, [])
+            got_parents = ["<scope>" if n_.attrs.get("parent") is scope else (n_.attrs["parent"].attrs.get("name") if isinstance(n_.attrs.get("parent"), Obj) else repr(n_.attrs.get("parent"))) for n_ in ns]
+            got_canon = it5.getattr(e, "canonical_path")
+        except Raised as r:
+            got_parents, got_canon = [f"raises {r.exc}"], None
+        ctx.ob("R5", f"chain|{src}", got_parents == want_parents and got_canon == want_canon,
+               f"`{src}` built in scope m: parents of its segments {got_parents} (expected {want_parents}); canonical path {got_canon} (expected {want_canon})", where(build))
     from sa.importrules import import_rules, importfrom_table
 
     import_rules(prog, ctx, "R6")
